@@ -41,6 +41,7 @@ def main():
     ap.add_argument("--full", action="store_true")
     ap.add_argument("--checks", default="")
     ap.add_argument("--src", default="/tmp/wt/out")
+    ap.add_argument("--as", dest="as_name", default=None, help="suffix under which the change is filed (default: same letter)")
     a = ap.parse_args()
     src = os.path.join(a.src, a.pid)
     patch = os.path.join(src, "patch_%s.diff" % a.which)
@@ -67,7 +68,8 @@ def main():
         text = open(demo).read()
         for d, name, want_zero in ((clean, "clean", True), (mut, "patched", False)):
             dp = os.path.join(work, "demo_%s.py" % name)
-            open(dp, "w").write(text.replace("/tmp/wt/%s" % a.pid, d))
+            wt_root = os.path.join(os.path.dirname(os.path.abspath(a.src)), a.pid)     # the sub-agent's worktree path
+            open(dp, "w").write(text.replace(wt_root, d))
             rc, o, e = sh(["/venv/bin/python", dp], cwd=d, env=env, timeout=900)
             ran.append("demo on the %s copy: exit %d" % (name, rc))
             print("demo on %s copy: exit %d" % (name, rc))
@@ -112,7 +114,7 @@ def main():
         if not ok:
             print("NOT ADOPTED (confirmation failed)")
             return 1
-        dest = os.path.join(VERIF, "seeded", "%s%s" % (a.pid, a.which))
+        dest = os.path.join(VERIF, "seeded", "%s%s" % (a.pid, a.as_name or a.which))
         os.makedirs(dest, exist_ok=True)
         shutil.copy(patch, os.path.join(dest, "patch.diff"))
         open(os.path.join(dest, "demo.py"), "w").write(text)
